@@ -205,7 +205,9 @@ func VerifC14Loop(mode, after, nrouters int) {
 // ---- router learning from router advertisements: differential against an independent decoder
 
 // VerifC14RA: optsel selects the option list: bit0 prefix information, bit1 MTU, bit2 RDNSS (1 server), bit3 source LLA,
-// bit4 DNS search list with one single-label name of 1..7 letters (every padding length 0..6).
+// bit4 DNS search list with one single-label name of 1..7 letters (every padding length 0..6); bit5 (with bit2): the RDNSS
+// option carries 16 servers (33 units = 264 bytes: an option length that does not fit 8 bits once multiplied by 8); bit6: the
+// list starts with an option of unknown type 200 and 32 units (256 bytes, arbitrary contents), which a receiver skips.
 func VerifC14RA(optsel int) {
 	h, s, _, hostMAC := verifHandler6()
 	n := 14 + 40 + 16
@@ -221,11 +223,18 @@ func VerifC14RA(optsel int) {
 	if optsel&2 != 0 {
 		n += 8
 	}
+	nsrv := 1
+	if optsel&32 != 0 {
+		nsrv = 16
+	}
 	if optsel&4 != 0 {
-		n += 24
+		n += 8 + 16*nsrv
 	}
 	if optsel&8 != 0 {
 		n += 8
+	}
+	if optsel&64 != 0 {
+		n += 256
 	}
 	b := verifBytes(n)
 	verifAssume(b[6]&1 == 0 && verifMACDiff(b[6:12], hostMAC) != 0)
@@ -240,6 +249,10 @@ func VerifC14RA(optsel int) {
 	m[0], m[1] = 134, 0
 	i := 16
 	pfx, mtu, rd, sl := -1, -1, -1, -1
+	if optsel&64 != 0 {
+		m[i], m[i+1] = 200, 32
+		i += 256
+	}
 	if optsel&1 != 0 {
 		pfx = i
 		m[i], m[i+1] = 3, 4
@@ -252,8 +265,8 @@ func VerifC14RA(optsel int) {
 	}
 	if optsel&4 != 0 {
 		rd = i
-		m[i], m[i+1] = 25, 3
-		i += 24
+		m[i], m[i+1] = 25, byte(1+2*nsrv)
+		i += 8 + 16*nsrv
 	}
 	if optsel&8 != 0 {
 		sl = i
@@ -330,14 +343,16 @@ func VerifC14RA(optsel int) {
 	if rd >= 0 {
 		o := ref[rd:]
 		verifAssert(r.Options.RDNSS.Lifetime == time.Duration(verifBE32(o, 4))*time.Second, "C14:ra-rdnss-lifetime")
-		verifAssert(len(r.Options.RDNSS.Servers) == 1, "C14:ra-rdnss-one-server")
-		if len(r.Options.RDNSS.Servers) == 1 {
-			sv := r.Options.RDNSS.Servers[0]
-			oks := len(sv) == 16
-			for k := 0; k < 16 && oks; k++ {
-				oks = sv[k] == o[8+k]
+		verifAssert(len(r.Options.RDNSS.Servers) == nsrv, "C14:ra-rdnss-one-server")
+		if len(r.Options.RDNSS.Servers) == nsrv {
+			for _, j := range []int{0, nsrv - 1} {
+				sv := r.Options.RDNSS.Servers[j]
+				oks := len(sv) == 16
+				for k := 0; k < 16 && oks; k++ {
+					oks = sv[k] == o[8+16*j+k]
+				}
+				verifAssert(oks, "C14:ra-rdnss-server-bytes")
 			}
-			verifAssert(oks, "C14:ra-rdnss-server-bytes")
 		}
 	}
 	if dl >= 0 {
